@@ -86,6 +86,17 @@ class _deadline:
         return False
 
 
+def task_failure(task) -> str | None:
+    """None when the task finished normally, else a short description ('pending', 'cancelled',
+    repr of the exception).  `Task.exception()` itself raises on a cancelled task."""
+    if not task.done():
+        return "pending"
+    if task.cancelled():
+        return "cancelled although nobody cancelled it"
+    exc = task.exception()
+    return None if exc is None else scrub(repr(exc))[:200]
+
+
 def library_exception_result(exc: BaseException) -> "Result":
     """An exception that escaped harness.execute.  If it was raised by a frame of the checked
     library (innermost Python frame under HV_REPO/src) the harness did not anticipate it: the
